@@ -625,8 +625,11 @@ class DeserializationMethodVisitor(
                     if fact.cls is not NoneType
                 )
                 return OptionalMethod(value_method, self.coercer)
-            elif len(method_by_cls) == len(alt_factories) and not any(
-                isinstance(x, CoercerMethod) for x in alt_methods
+            elif (
+                len(method_by_cls) == len(alt_factories)
+                and not any(isinstance(x, CoercerMethod) for x in alt_methods)
+                # float alternative accepts integers too, which dispatch by type misses
+                and not (float in method_by_cls and int not in method_by_cls)
             ):
                 # Coercion induces a different type in data than type to deserialize.
                 # Prefer UnionMethod in this case.
